@@ -19,7 +19,9 @@
 //! stream is still in frame; (2) every schedule is compared with the
 //! reference run: equal octets after deleting Serial Notify PDUs, Serial
 //! Notify only between responses and on PDU boundaries, at most one per notify
-//! event; the connection ends after the close; no panic, livelock or spin.
+//! event; at every quiescence the responses determined by the octets
+//! delivered so far are on the wire (a malformed header is answered from its 8
+//! octets); the connection ends after the close; no panic, livelock or spin.
 
 use std::cell::RefCell;
 use std::collections::{BTreeMap, HashSet};
@@ -211,6 +213,9 @@ enum Q {
     NotAQuery,
     /// An Error PDU sent by the client.
     ErrorPdu,
+    /// The bare header of a serial query (type 1, version 1) announcing a
+    /// length other than 12: answered from the header alone.
+    BadSerialHeader,
 }
 
 struct Sym { name: &'static str, bytes: Vec<u8>, q: Q }
@@ -233,8 +238,19 @@ fn alphabet() -> Vec<Sym> {
         Sym { name: "type9", bytes: hdr(1, 9, 0, 8), q: Q::NotAQuery },
         Sym { name: "serial2.current", bytes: serial_query(2, SERIAL), q: Q::Serial(2, SERIAL) },
         Sym { name: "error", bytes: err, q: Q::ErrorPdu },
+        // header-only malformed serial queries; the first one belongs to the
+        // core alphabet (streams of <= 3 PDUs), the others to streams of <= 2
+        Sym { name: "serial1.hdr.len8", bytes: hdr(1, 1, SESSION, 8), q: Q::BadSerialHeader },
+        Sym { name: "serial1.hdr.len0", bytes: hdr(1, 1, SESSION, 0), q: Q::BadSerialHeader },
+        Sym { name: "serial1.hdr.len11", bytes: hdr(1, 1, SESSION, 11), q: Q::BadSerialHeader },
+        Sym { name: "serial1.hdr.len13", bytes: hdr(1, 1, SESSION, 13), q: Q::BadSerialHeader },
+        Sym { name: "serial1.hdr.len16", bytes: hdr(1, 1, SESSION, 16), q: Q::BadSerialHeader },
+        Sym { name: "serial1.hdr.len2g", bytes: hdr(1, 1, SESSION, 0x8000_0000), q: Q::BadSerialHeader },
     ]
 }
+
+/// Symbols that take part in streams of three PDUs.
+const CORE: usize = 11;
 
 /// One expected response unit.
 #[derive(Debug)]
@@ -285,32 +301,47 @@ enum Negotiated {
 /// client Error PDU (RFC 8210 section 10 makes error reports fatal for the
 /// session while the property text promises nothing either way), and at a
 /// query whose version contradicts a `Maybe`.
-fn model(seq: &[Q]) -> (Vec<Expect>, bool) {
+fn model(seq: &[Q], lens: &[usize]) -> (Vec<Expect>, Vec<usize>, bool) {
     let mut out = Vec::new();
+    // due[i]: number of client octets after which response i is determined
+    // (all of a well-formed query; the 8 header octets of anything that is
+    // rejected on its header)
+    let mut due: Vec<usize> = Vec::new();
     let mut negotiated = Negotiated::No;
-    for q in seq {
+    let mut start = 0usize;
+    for (q, len) in seq.iter().zip(lens.iter()) {
+        let (hdr_end, end) = (start + 8, start + len);
+        start = end;
         let v = match *q {
             Q::Reset(v) | Q::Serial(v, _) => v,
             // header-only, in frame; nothing is negotiated, nothing is forgotten
-            Q::BadVersion => { out.push(Expect::ErrorPdu); continue }
+            Q::BadVersion => { out.push(Expect::ErrorPdu); due.push(hdr_end); continue }
+            // header-only, in frame: answered from the header alone; the
+            // version it carries is supported, so as with a non-query the
+            // model keeps both readings of what it negotiates
+            Q::BadSerialHeader => {
+                out.push(Expect::ErrorPdu); due.push(hdr_end);
+                if negotiated == Negotiated::No { negotiated = Negotiated::Maybe(1) }
+                continue
+            }
             // header-only (version 1 in the alphabet), in frame
             Q::NotAQuery => {
-                out.push(Expect::ErrorPdu);
+                out.push(Expect::ErrorPdu); due.push(hdr_end);
                 if negotiated == Negotiated::No { negotiated = Negotiated::Maybe(1) }
                 continue
             }
             // the body stays in the stream: out of frame from here on
-            Q::BadLength => { out.push(Expect::ErrorPdu); return (out, false) }
-            Q::ErrorPdu => return (out, false),
+            Q::BadLength => { out.push(Expect::ErrorPdu); due.push(hdr_end); return (out, due, false) }
+            Q::ErrorPdu => return (out, due, false),
         };
         match negotiated {
             Negotiated::Yes(n) if n != v => {
-                out.push(Expect::ErrorPdu);
+                out.push(Expect::ErrorPdu); due.push(hdr_end);
                 // a reset query is its header: still in frame, version unchanged;
                 // a serial query leaves its body behind
-                if matches!(q, Q::Reset(_)) { continue } else { return (out, false) }
+                if matches!(q, Q::Reset(_)) { continue } else { return (out, due, false) }
             }
-            Negotiated::Maybe(n) if n != v => return (out, false),
+            Negotiated::Maybe(n) if n != v => return (out, due, false),
             _ => negotiated = Negotiated::Yes(v),
         }
         let mut unit = Vec::new();
@@ -332,9 +363,9 @@ fn model(seq: &[Q]) -> (Vec<Expect>, bool) {
             Q::Serial(..) => unit.extend(hdr(v, 8, 0, 8)),
             _ => unreachable!(),
         }
-        out.push(Expect::Exact(unit));
+        out.push(Expect::Exact(unit)); due.push(end);
     }
-    (out, true)
+    (out, due, true)
 }
 
 
@@ -369,6 +400,8 @@ struct Parsed {
     stripped: Vec<u8>,
     /// Response units (Cache Response .. End of Data, Cache Reset, Error) as ranges of `stripped`.
     units: Vec<(u8, usize, usize)>,
+    /// For every unit, the offset in the unstripped transcript at which it is complete.
+    unit_raw_end: Vec<usize>,
     notifies: usize,
     /// Offsets of Serial Notify PDUs found between Cache Response and End of Data.
     notify_inside: Vec<usize>,
@@ -380,7 +413,7 @@ struct Parsed {
 
 fn parse(out: &[u8]) -> Result<Parsed, String> {
     let pdus = split(out)?;
-    let mut p = Parsed { stripped: Vec::with_capacity(out.len()), units: vec![], notifies: 0, notify_inside: vec![], notify_bad: vec![], complaints: vec![] };
+    let mut p = Parsed { stripped: Vec::with_capacity(out.len()), units: vec![], unit_raw_end: vec![], notifies: 0, notify_inside: vec![], notify_bad: vec![], complaints: vec![] };
     let mut open: Option<usize> = None;
     for pdu in pdus {
         if pdu.ty == T_NOTIFY {
@@ -395,9 +428,9 @@ fn parse(out: &[u8]) -> Result<Parsed, String> {
         match (pdu.ty, open) {
             (T_RESPONSE, None) => open = Some(s),
             (T_RESPONSE, Some(_)) => p.complaints.push(format!("Cache Response inside a response at {}", pdu.start)),
-            (T_EOD, Some(b)) => { p.units.push((T_RESPONSE, b, e)); open = None }
+            (T_EOD, Some(b)) => { p.units.push((T_RESPONSE, b, e)); p.unit_raw_end.push(pdu.end); open = None }
             (T_EOD, None) => p.complaints.push(format!("End of Data without Cache Response at {}", pdu.start)),
-            (T_RESET, None) | (T_ERROR, None) => p.units.push((pdu.ty, s, e)),
+            (T_RESET, None) | (T_ERROR, None) => { p.units.push((pdu.ty, s, e)); p.unit_raw_end.push(pdu.end) }
             (T_RESET, Some(_)) | (T_ERROR, Some(_)) => p.complaints.push(format!("PDU type {} inside a response at {}", pdu.ty, pdu.start)),
             (_, Some(_)) => {}
             (t, None) => p.complaints.push(format!("payload PDU type {t} outside a response at {}", pdu.start)),
@@ -510,7 +543,36 @@ fn fnv(b: &[u8]) -> u64 {
     h
 }
 
-struct Stream { names: String, bytes: Vec<u8>, qs: Vec<Q>, npdus: usize, bounds: Vec<usize> }
+struct Stream {
+    names: String, bytes: Vec<u8>, qs: Vec<Q>, npdus: usize, bounds: Vec<usize>,
+    /// Per predicted response unit: the number of client octets that determine it.
+    due: Vec<usize>,
+}
+
+/// "The response is produced as soon as the octets that determine it have
+/// arrived": at every run to quiescence before the close, the transcript must
+/// hold at least the response units the model says are determined by the
+/// octets delivered so far. Not judged while the script holds writes back.
+fn prompt_check(script: &[Ev], marks: &[Mark], due: &[usize], unit_raw_end: &[usize]) -> Option<String> {
+    if script.iter().any(|e| matches!(e, Ev::WriteBudget(_))) { return None }
+    let mut d = 0usize;
+    for (i, e) in script.iter().enumerate() {
+        match e {
+            Ev::Deliver(k) => d += k,
+            Ev::Close => return None,
+            Ev::Settle => {
+                let Some(m) = marks.iter().find(|m| m.at == i) else { continue };
+                let n_due = due.iter().filter(|x| **x <= d).count();
+                let n_have = unit_raw_end.iter().filter(|x| **x <= m.out_len).count();
+                if n_have < n_due {
+                    return Some(format!("{d} client octets have arrived and determine {n_due} responses, but only {n_have} are on the wire at quiescence ({} octets written, {} consumed)", m.out_len, m.consumed))
+                }
+            }
+            _ => {}
+        }
+    }
+    None
+}
 
 fn main() {
     let ctx = Ctx::new("C08", "model_checking");
@@ -518,7 +580,17 @@ fn main() {
     ctx.assume("the harness' PayloadSource (fixed data set, session 0x1234, serial 7, one retained diff) is the data the responses must carry");
     ctx.assume("writes are accepted at once, except for the 1-octet-write and held-back-response variants at deviation <= 1; notifications fired before the connection has subscribed are out of scope");
 
-    let src = Src::new();
+    let src = match guard(Src::new) {
+        Ok(s) => s,
+        Err(p) => {
+            // the library panics while the payload items are constructed: a finding, not a machinery failure
+            let sp = ctx.space("setup", "constructing the payload items of the harness' source with the library");
+            sp.eval();
+            ctx.fail("C08.ref.model", "constructing the payload source (Prefix / MaxLenPrefix / RouterKeyInfo / ProviderAsns constructors)", p);
+            sp.done(false, "stopped: the source cannot be constructed");
+            ctx.finish();
+        }
+    };
     let alpha = alphabet();
     let max_pdus = 3usize;
     let mut streams: Vec<Stream> = Vec::new();
@@ -532,12 +604,16 @@ fn main() {
                     qs: idx.iter().map(|i| alpha[*i].q).collect(),
                     npdus: idx.len(),
                     bounds: { let mut acc = 0; let mut b = vec![0usize]; for i in idx.iter() { acc += alpha[*i].bytes.len(); b.push(acc) } b },
+                    due: model(&idx.iter().map(|i| alpha[*i].q).collect::<Vec<_>>(), &idx.iter().map(|i| alpha[*i].bytes.len()).collect::<Vec<_>>()).1,
                 });
             }
             if left == 0 { return }
             for i in 0..alpha.len() { idx.push(i); rec(alpha, idx, left - 1, out); idx.pop(); }
         }
         rec(&alpha, &mut idx, max_pdus, &mut streams);
+        // the five further header-only symbols only in streams of <= 2 PDUs
+        let extra: Vec<&str> = alpha[CORE..].iter().map(|a| a.name).collect();
+        streams.retain(|s| s.npdus < 3 || !s.names.split(',').any(|n| extra.contains(&n)));
         streams.sort_by_key(|s| s.npdus); // shortest first (stable: alphabet order within)
     }
 
@@ -558,7 +634,7 @@ fn main() {
 
     //--- (1) reference runs against the protocol model ----------------------
     let sp = ctx.space("reference.model",
-        "every sequence of <= 3 PDUs over the 10-symbol client alphabet, delivered in one piece, no notify, then close; compared with the independent protocol model: exact response octets for every well-formed supported query and an Error PDU for every malformed or unsupported one, continuing after every error that leaves the stream in frame (unsupported version / version switch / non-query on a header-only PDU), stopping only at a serial query rejected on its header (body left in the stream), a client Error PDU, or a version the model cannot know; non-trivial = streams with at least one query the model predicts a data response for");
+        "every sequence of <= 3 PDUs over the 11-symbol core alphabet plus every sequence of <= 2 PDUs involving the 5 further header-only malformed serial queries (length 0, 11, 13, 16, 2^31), delivered in one piece, no notify, then close; compared with the independent protocol model: exact response octets for every well-formed supported query and an Error PDU for every malformed or unsupported one, continuing after every error that leaves the stream in frame (unsupported version / version switch / non-query on a header-only PDU), stopping only at a serial query rejected on its header (body left in the stream), a client Error PDU, or a version the model cannot know; every predicted response must be on the wire at quiescence before the close (answers to malformed headers after the 8 header octets); non-trivial = streams with at least one query the model predicts a data response for");
     let mut refs: Vec<Obs> = Vec::with_capacity(streams.len());
     let mut oc: BTreeMap<&'static str, u64> = BTreeMap::new();
     for st in &streams {
@@ -566,7 +642,8 @@ fn main() {
         let obs = execute(&src, &st.bytes, &script);
         sp.eval();
         let wit = || format!("stream={} hex={} sched={}", st.names, hex(&st.bytes), render_script(&script));
-        let (expect, complete) = model(&st.qs);
+        let lens: Vec<usize> = st.bounds.windows(2).map(|w| w[1] - w[0]).collect();
+        let (expect, _, complete) = model(&st.qs, &lens);
         if expect.iter().any(|e| matches!(e, Expect::Exact(_))) { sp.nontrivial(1) }
         ctx.check("C08.ref.model", wit, || {
             if obs.conn_panicked { return Err("connection task panicked".into()) }
@@ -594,6 +671,11 @@ fn main() {
             }
             Ok(())
         });
+        // the answers must be on the wire at quiescence, before the client closes
+        ctx.check("C08.ref.prompt", wit, || {
+            let p = parse(&obs.out)?;
+            match prompt_check(&script, &obs.marks, &st.due, &p.unit_raw_end) { Some(d) => Err(d), None => Ok(()) }
+        });
         if let Ok(p) = parse(&obs.out) {
             for (ty, _, _) in &p.units {
                 *oc.entry(match *ty { T_RESPONSE => "unit:data", T_RESET => "unit:cache-reset", _ => "unit:error" }).or_insert(0) += 1;
@@ -615,7 +697,7 @@ fn main() {
 
     //--- (2) schedules -------------------------------------------------------
     let sp = ctx.space("schedules",
-        "per stream: every set of <= 3 cut positions x notify events at every position of the event order (own batch / batched with a chunk / two in one batch) with cuts + notifies <= bound, close after quiescence and (deviation <= 2) close batched with the last event; plus 1-octet-write and 1-octet-read variants at deviation <= 1 and, with one notify, the response held back after k octets (k in 0,1,7,8,9,27,28,60,129) until after the notify; each compared with the reference run of the same octets; non-trivial = schedules with at least one deviation");
+        "per stream: every set of <= 3 cut positions x notify events at every position of the event order (own batch / batched with a chunk / two in one batch) with cuts + notifies <= bound, close after quiescence and (deviation <= 2) close batched with the last event; plus 1-octet-write and 1-octet-read variants at deviation <= 1 and, with one notify, the response held back after k octets (k in 0,1,7,8,9,27,28,60,129) until after the notify; each compared with the reference run of the same octets, and at every run to quiescence with the responses the model says are determined by the octets delivered so far; non-trivial = schedules with at least one deviation");
     let transcripts: Mutex<HashSet<u64>> = Mutex::new(HashSet::new());
     let inside_pdu = AtomicU64::new(0);
     let first_last: Mutex<Option<(usize, Vec<Ev>, usize, Vec<Ev>)>> = Mutex::new(None);
@@ -655,6 +737,9 @@ fn main() {
                 }
                 if parsed.notifies > fired {
                     bad.push(("C08.sched.notify_count", format!("{} Serial Notify PDUs for {fired} notify events", parsed.notifies)));
+                }
+                if let Some(d) = prompt_check(script, &obs.marks, &st.due, &parsed.unit_raw_end) {
+                    bad.push(("C08.sched.prompt", d));
                 }
             }
         }
